@@ -411,7 +411,8 @@ class World(object):
     h.rest = []
     h.rest_exc = None
     if drain_rest and err is None:
-      self.vt.offset += (self.orig_lag or 0) + 1000
+      if self.orig_lag:
+        self.vt.offset += self.orig_lag + 1000     # only a configured lag may make datapoints wait for the clock
       nones = 0
       for _ in range(10 * (len(h.final) + 2)):
         try:
